@@ -522,7 +522,10 @@ def gen_simple_world(rng):
         axes["Z"] = {"n": nz, "pos": {"center": "zc", "outer": "zo"}}
     extra = {"t": 2} if rng.random() < 0.5 else {}
     vars_ = {"dx_c": {"dims": ["xc"], "data": {"gen": "dyadic", "seed": 1}},
-             "dx_g": {"dims": ["xg"], "data": {"gen": "dyadic", "seed": 2}}}
+             "dx_g": {"dims": ["xg"], "data": {"gen": "dyadic", "seed": 2}},
+             # present in the dataset but not registered (used by refused registrations)
+             "dx_c2": {"dims": ["xc"], "data": {"gen": "dyadic", "seed": 11}},
+             "dx_g2": {"dims": ["xg"], "data": {"gen": "dyadic", "seed": 12}}}
     metrics = [[{"$tuple": ["X"]}, ["dx_c", "dx_g"]]]
     if has_y:
         vars_["dy_c"] = {"dims": ["yc"], "data": {"gen": "dyadic", "seed": 3}}
@@ -589,7 +592,10 @@ def gen_simple_world(rng):
     addmap("fill_partial", {rng.choice(axn): float(rng.randint(1, 5))})
     addmap("to_center_src", {a: "left" for a in axn if a != "Z"})
     addmap("to_partial", {"X": "left"})
-    addmap("mw", {"X": ["X"]} if not has_y else {"X": ["X"], "Y": ["Y"]})
+    def mw_spell(a):
+        return rng.choice([a, [a], {"$tuple": [a]}])
+
+    addmap("mw", {"X": mw_spell("X")} if not has_y else {"X": mw_spell("X"), "Y": mw_spell("Y")})
     addmap("periodic_list", [a for a in axn if a != "Z" and rng.random() < 0.6])
     addmap("coords", {a: dict(axes[a]["pos"]) for a in axn})
     addmap("metrics", {"$items": metrics})
@@ -695,7 +701,7 @@ def gen_op(rng, ws, info):
     if faces:
         kinds += ["vector", "vector", "vector", "vector2d", "vector_multi", "padvec"]
     else:
-        kinds += ["metricop", "metricop", "get_metric", "interp_like", "mw"]
+        kinds += ["metricop", "metricop", "get_metric", "interp_like", "mw", "mw", "set_metrics_bad"]
         if info["has_z"]:
             kinds += ["transform", "transform", "transform"]
     kind = rng.choice(kinds)
@@ -817,6 +823,22 @@ def gen_op(rng, ws, info):
         if rng.random() < 0.5:
             kw["boundary"] = _maybe_shared(rng, info, "boundary_total", "extend")
         return {"op": "method", "grid": g, "name": name, "pos": [{"$a": idx["c"]}, "X"], "kw": kw}
+    if kind == "set_metrics_bad":
+        # a registration that must be refused before anything is registered
+        vals = ["dx_c2", "dx_g2"]
+        rng.shuffle(vals)
+        r = rng.random()
+        if r < 0.5:
+            vals.insert(rng.randrange(len(vals) + 1), "no_such_metric")
+            key = rng.choice(["X", {"$tuple": ["X"]}, ["X"]])
+        elif r < 0.75:
+            # an axis set the grid has no metrics for yet
+            vals.insert(rng.randrange(1, len(vals) + 1), "no_such_metric")
+            key = {"$tuple": ["X", rng.choice([a for a in info["axn"] if a != "X"] or ["X"])]}
+        else:
+            key = {"$tuple": ["X", "Q"]}
+        return {"op": "method", "grid": g, "name": "set_metrics", "pos": [key, vals],
+                "kw": {"overwrite": rng.random() < 0.7}}
     if kind == "get_metric":
         return {"op": "method", "grid": g, "name": "get_metric",
                 "pos": [{"$a": idx[rng.choice(["c", "u"])]}, rng.choice([["X"], axn[:2]])], "kw": {}}
